@@ -39,9 +39,23 @@ type Result<T> = std::result::Result<T, Error>;
 struct TransportError { _p: () }
 type TResult<T> = std::result::Result<T, TransportError>;
 
+// ASSUMED: what `?` does with a transport error (vstd models the conversion in `?` by the uninterpreted
+// relation `spec_from`): `From<transport::Error> for Error` builds `Error::Transport{..}`, here `Other`.
+mod from_axioms {
+    use super::*;
+    #[verifier::external_body]
+    pub broadcast proof fn axiom_error_from_transport_error(e: TransportError, r: Error)
+        requires #[trigger] vstd::std_specs::control_flow::spec_from::<Error, TransportError>(e, r),
+        ensures r is Other,
+    { }
+}
+broadcast use from_axioms::axiom_error_from_transport_error;
+
 impl From<TransportError> for Error {
     #[verifier::external_body]
-    fn from(e: TransportError) -> (r: Error) { Error::Other }
+    fn from(e: TransportError) -> (r: Error)
+        ensures r is Other,
+    { Error::Other }
 }
 
 // <BandId as FromStr>::from_str(name).ok()  (src/bandid.rs: "b" followed by a u32)
@@ -54,7 +68,7 @@ spec fn entry_band(e: DirEntry) -> Option<BandId> {
 }
 
 spec fn listing_band_ids(l: Seq<DirEntry>) -> Set<BandId> {
-    Set::new(|id: BandId| exists|i: int| 0 <= i < l.len() && #[trigger] entry_band(l[i]) == Some(id))
+    l.filter(|e: DirEntry| entry_band(e) is Some).map_values(|e: DirEntry| entry_band(e).unwrap()).to_set()
 }
 
 // ascending, NOT strictly: two directory names can parse to the same id ("b0001" and "b1"), see report.
@@ -116,7 +130,7 @@ fn r7_max_band_id(v: Vec<BandId>) -> (r: Option<BandId>)
             None => v@.len() == 0,
             Some(m) => v@.contains(m) && forall|i: int| 0 <= i < v@.len() ==> v@[i].n() <= m.n(),
         },
-{ v.into_iter().max_by_key(|b| b.0) }
+{ unimplemented!() }
 
 // R6: `for x in V.into_iter().rev()`: the iterator yields the elements of V from last to first.
 #[verifier::external_body]
@@ -139,6 +153,11 @@ fn shim_into_iter_rev(v: Vec<BandId>) -> (r: RevBandIter)
     ensures r.rem() == v@.reverse(),
 { RevBandIter { inner: v.into_iter().rev() } }
 
+#[verifier::external_body]
+fn shim_into_iter_fwd(v: Vec<BandId>) -> (r: RevBandIter)
+    ensures r.rem() == v@,
+{ unimplemented!() }
+
 // R3: Band (src/band.rs), opaque; ASSUMED contracts of the three functions used here.
 //   open:      Ok(b) => b is band `band_id` of `archive`   (Err: head missing/undecodable/unsupported)
 //   is_closed: Ok(c) => c == "BANDTAIL exists"
@@ -152,12 +171,16 @@ impl Band {
 
     #[verifier::external_body]
     async fn open(archive: &Archive, band_id: BandId) -> (r: Result<Band>)
-        ensures r matches Ok(b) ==> b.sid() == band_id && b.home() == *archive,
+        ensures
+            r matches Ok(b) ==> b.sid() == band_id && b.home() == *archive,
+            r matches Err(e) ==> e is Other,
     { unimplemented!() }
 
     #[verifier::external_body]
     async fn is_closed(&self) -> (r: Result<bool>)
-        ensures r matches Ok(c) ==> c == self.home().closed(self.sid()),
+        ensures
+            r matches Ok(c) ==> c == self.home().closed(self.sid()),
+            r matches Err(e) ==> e is Other,
     { unimplemented!() }
 
     #[verifier::external_body]
